@@ -4,6 +4,7 @@ import (
 	"fmt"
 	"go/token"
 	"go/types"
+	"strings"
 
 	"verif/engine/sym"
 
@@ -24,9 +25,15 @@ func (e *Exec) callFunction(fn *ssa.Function, args []Value, free []Value, site s
 		e.unsupported("call of body-less function %s", fn)
 	}
 	if e.Sh.Cfg.Replace != nil {
-		if r, ok := e.Sh.Cfg.Replace[fn.String()]; ok && fn.Pkg != nil && !e.allConcrete(args) {
+		if r, ok := e.Sh.Cfg.Replace[fn.String()]; ok && fn.Pkg != nil && (strings.HasPrefix(r, "!") || !e.allConcrete(args)) {
+			r = strings.TrimPrefix(r, "!") // "!name": replace even when every argument is concrete
 			if rf := fn.Pkg.Func(r); rf != nil {
 				return e.callPlain(rf, args, nil, site)
+			}
+			if e.Sh.Target != nil {
+				if rf := e.Sh.Target.Func(r); rf != nil {
+					return e.callPlain(rf, args, nil, site)
+				}
 			}
 			e.unsupported("replacement function %s not found", r)
 		}
